@@ -103,12 +103,29 @@ def build_event(ev):
 
     if ev[0] == 'disj':
         alts = [build_event(k) for k in ev[1]]
-        out = alts[-1]
-        for a in reversed(alts[:-1]):
-            out = HplEventDisjunction(a, out)
-        return out
+        return nest_disjunction(alts, NESTING[0])
     _, topic, alias, pred = ev
     return HplSimpleEvent.publish(topic, predicate=build_predicate(pred), alias=alias)
+
+
+NESTING = ['right']  # how build_event nests disjunctions: right | left | balanced | a random.Random
+
+
+def nest_disjunction(alts, how):
+    """binary tree of HplEventDisjunction over alts, leaves in the given order"""
+    from hpl.ast import HplEventDisjunction
+
+    if len(alts) == 1:
+        return alts[0]
+    if how == 'right':
+        return HplEventDisjunction(alts[0], nest_disjunction(alts[1:], how))
+    if how == 'left':
+        return HplEventDisjunction(nest_disjunction(alts[:-1], how), alts[-1])
+    if how == 'balanced':
+        m = len(alts) // 2
+        return HplEventDisjunction(nest_disjunction(alts[:m], how), nest_disjunction(alts[m:], how))
+    m = how.randrange(1, len(alts))  # random split point
+    return HplEventDisjunction(nest_disjunction(alts[:m], how), nest_disjunction(alts[m:], how))
 
 
 def build_scope(scope):
